@@ -25,7 +25,9 @@ EXPLANATION = (
     "included); each header's last_block is the loop's flag, which is true iff the source returned 0; (e) wire "
     "format — the frame header, block header, literals-section header (type, size format per literal count range, "
     "field widths), sequence count, modes byte and LL/ML/OF code tables the encoder writes equal RFC 8878 "
-    "(every value range maps to the code/format whose field can hold it). "
+    "(every value range maps to the code/format whose field can hold it); (f) checksum — in hash builds the "
+    "trailer is the low 32 bits (little-endian) of a hash that is re-seeded per frame and fed every block exactly as "
+    "read and as encoded, written after the last block (the reference decoder verifies it). "
     "Not decided: round-trip equality for all inputs; acceptance by the reference decoder.")
 ASSUMPTIONS = ["the decoder side order is C01's (RFC) order", "Vec::drain(..) empties the vector once the iterator is consumed"]
 
@@ -360,6 +362,23 @@ def run(ctx):
     ctx.obs[before:] = [o for o in ctx.obs[before:]
                         if not (o.key.endswith("::length-and-modes-byte") or o.key == "reader::empty-input-refused-first")]
     ctx.floor("C02.wire", len([o for o in ctx.obs[before:] if o.cfg == ctx.cfg]), 60, "writer-side wire-format obligations")
+
+    # ---- the content checksum the frame announces -------------------------------------------------------
+    # a frame with a wrong trailer is rejected by the reference decoder: the compressor-side checksum clauses (hash
+    # re-seeded per frame, every block hashed exactly as encoded and as read, trailer = low 32 bits LE after the
+    # last block) are necessary for "decodes with the reference decoder".  Same rule instances as C08, hash builds only.
+    if "feature=hash" in crate.cfg:
+        from . import c08
+        before = len(ctx.obs)
+        ctx.only = lambda rule, key: (rule, key) in {("C08.dom.reseed", "reseed"), ("C08.pair.hash-input", "hash_input"), ("C08.agree.trunc-endian", "trunc")}
+        ctx.rename = lambda rule: "C02.checksum." + rule.split(".", 1)[1] if rule.startswith("C08.") else rule
+        try:
+            c08.run(ctx)
+        finally:
+            ctx.only = None
+            ctx.rename = None
+        ctx.obs[before:] = [o for o in ctx.obs[before:] if not o.key.startswith("decoder::")]
+        ctx.floor("C02.checksum", len([o for o in ctx.obs[before:] if o.cfg == ctx.cfg]), 8, "compressor-side checksum obligations")
 
 
 SRC_ = "core::option::Option::unwrap(core::option::Option::as_mut(self.uncompressed_data))"
